@@ -413,9 +413,10 @@ fn select_n_nodes(
             .choose_multiple(&mut rng, n)
     };
 
+    let mut selected_dcs = selected_dcs;
     let mut dc_count = selected_dcs.len();
     let mut selected_nodes = Nodes::new();
-    for (_, dc_nodes) in selected_dcs.into_iter() {
+    for (_, dc_nodes) in selected_dcs.iter_mut() {
         let node = match dc_nodes.next() {
             Some(node) => {
                 if node == local_node {
@@ -457,6 +458,25 @@ fn select_n_nodes(
         }
 
         dc_count -= 1;
+    }
+
+    // A cursor resting on the local node (or on an already selected node) wastes an
+    // attempt above. Make up for the shortfall from any of the selected data centers
+    // before reporting that there are not enough nodes.
+    if selected_nodes.len() < n {
+        for (_, dc_nodes) in selected_dcs.iter_mut() {
+            for _ in 0..dc_nodes.len() {
+                if selected_nodes.len() >= n {
+                    break;
+                }
+
+                if let Some(node) = dc_nodes.next() {
+                    if node != local_node && !selected_nodes.contains(&node) {
+                        selected_nodes.push(node);
+                    }
+                }
+            }
+        }
     }
 
     if selected_nodes.len() >= n {
